@@ -44,7 +44,7 @@ def qlen (q : WQ) : Nat := q.curr.length + q.next.length
 def dumpSched : Sched → String
   | .rr s => s!"rr ctl={qlen s.control} ring={showIds s.ring} q=" ++ String.join (s.ring.map fun id => s!"{qlen (s.qs id)},")
   | .p9 s =>
-    s!"p9 ctl={qlen s.control} t={b01 s.toggle} buf={s.bufId}:{s.bufClass}" ++
+    s!"p9 ctl={qlen s.control} t={String.join ((List.range 8).map fun u => b01 (s.pref u))} buf={s.bufId}:{s.bufClass}" ++
       String.join ((List.range 16).map fun c => if (s.ring c).isEmpty then "" else s!" r{c}={showIds (s.ring c)}")
   | .rnd s => s!"rand ctl={qlen s.zero} sq={showIds (s.sq.mergeSort (· ≤ ·))}"
 
